@@ -22,6 +22,67 @@ TITRATABLE_READERS = {
 }
 
 
+def demotion_rules(ctx, rule, prog):
+    """With a titrate-only list the groups of unlisted residues are demoted to
+    non-titratable at one site, under exactly "option given and residue not
+    listed", after setup(); and every unlisted CYS group - bridged or free - is
+    hidden from the results, because the report filter admits any CYS that is
+    not hidden (shared with C01: nothing is reported that was not asked for)."""
+    cc = prog.mod('conformation_container')
+    ig = cc.func('ConformationContainer.init_group')
+    demote = []
+    hide = []
+    for m2, q2, f2 in prog.all_funcs():
+        for node in walk_no_nested(f2):
+            if isinstance(node, ast.Assign) and isinstance(node.targets[0], ast.Attribute):
+                t = node.targets[0]
+                if t.attr == 'titratable' and norm(node.value) == 'False' \
+                        and not (m2.name == 'group' and q2 in ('Group.__init__', 'Group.setup')):
+                    demote.append((m2, q2, node))
+                if t.attr == 'exclude_cys_from_results' and norm(node.value) == 'True':
+                    hide.append((m2, q2, node))
+    ctx.ob(rule, 'demotion:single-site',
+           len(demote) == 1 and demote[0][1] == 'ConformationContainer.init_group',
+           'groups are demoted to non-titratable at exactly one site, in init_group (sites: %s)'
+           % [m.name + '.' + q for m, q, _ in demote], demote[0][0] if demote else cc,
+           demote[0][2] if demote else ig)
+    ctx.ob(rule, 'cys-hiding:single-site',
+           len(hide) == 1 and hide[0][1] == 'ConformationContainer.init_group',
+           'unlisted cysteines are hidden at exactly one site, in init_group', cc,
+           hide[0][2] if hide else ig)
+    for what, sites in (('demotion', demote), ('cys-hiding', hide)):
+        for m2, q2, node in sites:
+            if q2 != 'ConformationContainer.init_group':
+                continue
+            ican = canon(ig)
+            facts = [(ican.text(e), p) for e, p in facts_at(node, ig)]
+            OPT = '.options.titrate_only'
+            given = any(p and t.endswith(OPT + ' is not None') for t, p in facts) or \
+                any((not p) and t.endswith(OPT + ' is None') for t, p in facts)
+
+            def _mem(t):
+                if ' not in ' in t and OPT in t.split(' not in ', 1)[1]:
+                    return 'notin'
+                if ' in ' in t and OPT in t.split(' in ', 1)[1]:
+                    return 'in'
+                return None
+            unlisted = any((_mem(t) == 'notin' and p) or (_mem(t) == 'in' and not p)
+                           for t, p in facts)
+            ctx.ob(rule, what + ':only-when-option-given-and-unlisted', given and unlisted,
+                   'the %s happens only when the option is given and the residue is NOT listed'
+                   % what, cc, node, detail=str(facts))
+            # after setup()
+            setup_calls = [c for c in calls_in(ig, nested=False) if last_attr(c) == 'setup']
+            ctx.ob(rule, what + ':after-setup',
+                   len(setup_calls) == 1 and setup_calls[0].lineno < node.lineno,
+                   'it follows group.setup(), which resets titratable and the hiding flag', cc, node)
+    if hide and hide[0][1] == 'ConformationContainer.init_group':
+        facts = fact_texts(hide[0][2], ig)
+        ctx.ob(rule, 'cys-hiding:only-cys',
+               any(p and "residue_type == 'CYS'" in t for t, p in facts),
+               'only CYS groups are hidden from the results', cc, hide[0][2])
+
+
 def run(ctx):
     prog = ctx.prog
     lib = prog.mod('lib')
@@ -73,57 +134,7 @@ def run(ctx):
            'every comma-separated entry is parsed and kept', lib, prl)
 
     # ------------------------------------------------------------------ R2
-    demote = []
-    hide = []
-    for m2, q2, f2 in prog.all_funcs():
-        for node in walk_no_nested(f2):
-            if isinstance(node, ast.Assign) and isinstance(node.targets[0], ast.Attribute):
-                t = node.targets[0]
-                if t.attr == 'titratable' and norm(node.value) == 'False' \
-                        and not (m2.name == 'group' and q2 in ('Group.__init__', 'Group.setup')):
-                    demote.append((m2, q2, node))
-                if t.attr == 'exclude_cys_from_results' and norm(node.value) == 'True':
-                    hide.append((m2, q2, node))
-    ctx.ob('C14.R2', 'demotion:single-site',
-           len(demote) == 1 and demote[0][1] == 'ConformationContainer.init_group',
-           'groups are demoted to non-titratable at exactly one site, in init_group (sites: %s)'
-           % [m.name + '.' + q for m, q, _ in demote], demote[0][0] if demote else cc,
-           demote[0][2] if demote else ig)
-    ctx.ob('C14.R2', 'cys-hiding:single-site',
-           len(hide) == 1 and hide[0][1] == 'ConformationContainer.init_group',
-           'unlisted cysteines are hidden at exactly one site, in init_group', cc,
-           hide[0][2] if hide else ig)
-    for what, sites in (('demotion', demote), ('cys-hiding', hide)):
-        for m2, q2, node in sites:
-            if q2 != 'ConformationContainer.init_group':
-                continue
-            ican = canon(ig)
-            facts = [(ican.text(e), p) for e, p in facts_at(node, ig)]
-            OPT = '.options.titrate_only'
-            given = any(p and t.endswith(OPT + ' is not None') for t, p in facts) or \
-                any((not p) and t.endswith(OPT + ' is None') for t, p in facts)
-
-            def _mem(t):
-                if ' not in ' in t and OPT in t.split(' not in ', 1)[1]:
-                    return 'notin'
-                if ' in ' in t and OPT in t.split(' in ', 1)[1]:
-                    return 'in'
-                return None
-            unlisted = any((_mem(t) == 'notin' and p) or (_mem(t) == 'in' and not p)
-                           for t, p in facts)
-            ctx.ob('C14.R2', what + ':only-when-option-given-and-unlisted', given and unlisted,
-                   'the %s happens only when the option is given and the residue is NOT listed'
-                   % what, cc, node, detail=str(facts))
-            # after setup()
-            setup_calls = [c for c in calls_in(ig, nested=False) if last_attr(c) == 'setup']
-            ctx.ob('C14.R2', what + ':after-setup',
-                   len(setup_calls) == 1 and setup_calls[0].lineno < node.lineno,
-                   'it follows group.setup(), which resets titratable and the hiding flag', cc, node)
-    if hide and hide[0][1] == 'ConformationContainer.init_group':
-        facts = fact_texts(hide[0][2], ig)
-        ctx.ob('C14.R2', 'cys-hiding:only-cys',
-               any(p and "residue_type == 'CYS'" in t for t, p in facts),
-               'only CYS groups are hidden from the results', cc, hide[0][2])
+    demotion_rules(ctx, 'C14.R2', prog)
     # "exactly the listed residues' groups are reported" - in every report, not only
     # in the averaged one: both section writers print a group only if it passes
     # the same filter as the groups that go into the average (use_in_calculations)
